@@ -29,12 +29,17 @@ Definition write_param_command (dev host id p1 p2 : N) : list N := hdr_params id
 Definition write_data_command (dev host id : N) (payload : list N) : list N :=
   hdr_data id (len payload) (N.lor dev 128) host ++ payload.
 
-(* ask(data_type): stream = bytes the device will deliver; returns outcome and unread rest *)
-Definition apt_ask (header_only : bool) (expect_id sizeof : N) (s : list N) : res (list N) * list N :=
+(* ask(data_type): stream = bytes the device will deliver; returns outcome and unread rest.
+   ho_check: does ask compare the message id of a HEADER_ONLY reply with the expected one?  The property
+   leaves this open (it only demands the check for data messages); the flag is PROBED on the live code
+   on every run (false for the code as pinned: the header is returned unchecked). *)
+Definition hdr_id (h : list N) : N := match h with a :: b :: _ => dec16 a b | _ => 0 end.
+Definition apt_ask (ho_check : bool) (header_only : bool) (expect_id sizeof : N) (s : list N) : res (list N) * list N :=
   match take 6 s with
   | None => (Err ETimeout, s)
   | Some (h, s1) =>
-      if header_only then (Ok h, s1)            (* data_type.from_buffer_copy(header_bytes), sizeof = 6 *)
+      if header_only then                       (* data_type.from_buffer_copy(header_bytes), sizeof = 6 *)
+        if ho_check && negb (expect_id =? hdr_id h) then (Err EInstr, s1) else (Ok h, s1)
       else match h with
       | [a; b; l0; l1; _; _] =>
           match take (dec16 l0 l1) s1 with
